@@ -15,6 +15,7 @@
 //!   group : select_next_patches rules on two-table fonts
 //!   ext   : explicit-state search over extension runs (ext.rs)
 
+mod audit;
 mod ext;
 mod extra;
 mod gate;
@@ -407,6 +408,7 @@ pub fn e2_sig(e: &E2) -> String {
     let cps = match &e.cps {
         Cps::None => "none",
         Cps::Empty { .. } => "explicit-empty",
+        Cps::Raw { .. } => "raw-sparse-bit-set",
         Cps::Set { bias_kind: 0, .. } => "plain",
         Cps::Set { bias_kind: 1, .. } => "u16bias",
         Cps::Set { .. } => "u24bias",
@@ -648,29 +650,69 @@ fn body(run: &Run, replay: Option<&Value>) {
     let gate_ok = gate::run_gate(run);
     run.extra("reference_assumptions", gate::reference_assumptions());
     let gate2_ok = extra::gate_templates(run, &base);
-    if !gate_ok || !gate2_ok {
+    let gate3_ok = audit::gate_sbs(run);
+    if !gate_ok || !gate2_ok || !gate3_ok {
         return;
     }
     let ctx = Ctx {
         run,
         sink: Mutex::new(Local::default()),
     };
+    // C19_TIMING=1 prints the wall time of every space to stderr (diagnostics only, no decisions)
+    let timing = std::env::var("C19_TIMING").is_ok();
+    let mut t0 = std::time::Instant::now();
+    let mut lap = |name: &str| {
+        if timing {
+            eprintln!("[timing] {name}: {:.2}s", t0.elapsed().as_secs_f64());
+        }
+        t0 = std::time::Instant::now();
+    };
     spaces_f2(&ctx, &base);
+    lap("spaces_f2");
     spaces_f2_ids(&ctx, &base);
+    lap("spaces_f2_ids");
     extra::spaces_templates(&ctx, &base);
+    lap("extra::spaces_templates");
     extra::spaces_malformed(&ctx, &base);
+    lap("extra::spaces_malformed");
     extra::spaces_axes(&ctx, &base);
+    lap("extra::spaces_axes");
     extra::spaces_explicit_empty(&ctx, &base);
+    lap("extra::spaces_explicit_empty");
     extra::spaces_f1_cmap12(&ctx, &base);
+    lap("extra::spaces_f1_cmap12");
     extra::spaces_f1_width_boundary(&ctx, &base);
+    lap("extra::spaces_f1_width_boundary");
     extra::spaces_pages(&ctx, &base);
+    lap("extra::spaces_pages");
+    audit::spaces_sbs(&ctx, &base);
+    lap("audit::spaces_sbs");
+    audit::spaces_segorder(&ctx, &base);
+    lap("audit::spaces_segorder");
+    audit::spaces_f1_groups(&ctx, &base);
+    lap("audit::spaces_f1_groups");
+    audit::spaces_children(&ctx, &base);
+    lap("audit::spaces_children");
+    audit::spaces_cff(&ctx, &base);
+    lap("audit::spaces_cff");
+    audit::spaces_featmerge(&ctx, &base);
+    lap("audit::spaces_featmerge");
+    audit::spaces_dups(&ctx, &base);
+    lap("audit::spaces_dups");
+    audit::spaces_misc(&ctx, &base);
+    lap("audit::spaces_misc");
     if run.tier == Tier::Thorough {
         spaces_f2_three_large(&ctx, &base);
+        lap("spaces_f2_three_large");
     }
     spaces_f1(&ctx, &base);
+    lap("spaces_f1");
     spaces_two(&ctx, &base);
+    lap("spaces_two");
     groups::run_groups(&ctx, &base);
+    lap("groups::run_groups");
     ext::run_ext(&ctx, &base);
+    lap("ext::run_ext");
     let l = std::mem::take(&mut *ctx.sink.lock().unwrap());
     run.evals(l.evals);
     run.trans(l.evals);
